@@ -6,9 +6,12 @@ require (
 	github.com/fido-device-onboard/go-fdo v0.0.0
 	github.com/fido-device-onboard/go-fdo/fsim v0.0.0
 	github.com/fido-device-onboard/go-fdo/sqlite v0.0.0
+	github.com/fido-device-onboard/go-fdo/tpm v0.0.0
+	github.com/google/go-tpm v0.9.8
 )
 
 require (
+	github.com/google/go-tpm-tools v0.4.7 // indirect
 	github.com/ncruces/go-sqlite3 v0.30.5 // indirect
 	github.com/ncruces/julianday v1.0.0 // indirect
 	github.com/tetratelabs/wazero v1.11.0 // indirect
@@ -21,3 +24,5 @@ replace github.com/fido-device-onboard/go-fdo => /repo
 replace github.com/fido-device-onboard/go-fdo/sqlite => /repo/sqlite
 
 replace github.com/fido-device-onboard/go-fdo/fsim => /repo/fsim
+
+replace github.com/fido-device-onboard/go-fdo/tpm => /repo/tpm
